@@ -155,6 +155,8 @@ def run_impl(case):
     if kind == "weights":
         t = np.array(fl(_Fv(case["t"])))
         out["w"] = _integration_weights(t, "trapz").tolist()
+        if len(t) >= 3:
+            out["sw"] = _integration_weights(t, "simpson").tolist()
     elif kind == "trapz":
         t = np.array(fl(_Fv(case["t"])))
         y = np.array(fl(_Fv(case["y"])))
@@ -265,7 +267,7 @@ def model_lines(case, impl):
     J = ",".join
     M = lambda m: ";".join(",".join(r) for r in m)  # noqa: E731
     if kind == "weights":
-        return [f"w {J(case['t'])}"]
+        return [f"w {J(case['t'])}"] + ([f"simpsonw {J(case['t'])}"] if len(case["t"]) >= 3 else [])
     if kind == "trapz":
         t = J(case["t"])
         a, b = F(case["a"]), F(case["b"])
@@ -280,7 +282,7 @@ def model_lines(case, impl):
     if kind == "int3":
         return [f"int3 {J(case['t1'])} {J(case['t2'])} {J(case['t3'])} {M(case['Y'])}"]
     if kind == "norm":
-        return [f"normsq {J(case['t'])} {M(case['X'])}"]
+        return [f"normsq {J(case['t'])} {M(case['X'])}"] + ([f"normsq_stand {J(case['t'])} {M(case['X'])}"] if case.get("stand") else [])
     if kind == "gram":
         return [f"gram {J(case['t'])} {M(case['X'])} {case['s2']}"]
     if kind == "gram2d":
@@ -293,14 +295,14 @@ def model_lines(case, impl):
         # model of to_grid: X = C B (exact), then the dense norm
         B, C = _Fm(case["B"]), _Fm(case["C"])
         X = [[sum(c[k] * B[k][j] for k in range(len(B))) for j in range(len(B[0]))] for c in C]
-        return [f"normsq {J(case['t'])} {mat(X)}"]
+        return [f"normsq {J(case['t'])} {mat(X)}", f"coefgram {J(case['t'])} {M(case['B'])} {M(case['C'])}"]
     return []
 
 
 def parse_model(case, outs):
     kind = case["kind"]
     if kind == "weights":
-        return dict(w=outs[0])
+        return dict(w=outs[0], sw=outs[1] if len(outs) > 1 else None)
     if kind in ("trapz", "int2", "int3"):
         return dict(vals=[o.split(" ") for o in outs])
     return dict(outs=outs)
@@ -324,6 +326,8 @@ def compare(case, impl, model):
         if model["w"] in ("error", "bad"):
             return [f"model rejects the grid: {model['w']}"]
         ds += _cmp_vec("weights", impl["w"], pvec(model["w"]))
+        if model.get("sw"):
+            ds += _cmp_vec("simpson weights", impl["sw"], pvec(model["sw"]))
     elif kind == "trapz":
         names = ["v", "v2", "vlin", "ip", "aff"]
         for nm, (q, sc) in zip(names, model["vals"]):
@@ -341,6 +345,8 @@ def compare(case, impl, model):
         qs = pvec(model["outs"][0])
         ds += _cmp_vec("normsq", impl["nsq"], qs)
         ds += _cmp_vec("norm^2", [x * x for x in impl["n"]], qs)
+        if case.get("stand"):
+            ds += _cmp_vec("normsq on standardised grid", impl["nsq_stand"], pvec(model["outs"][1]))
     elif kind in ("gram", "gram2d"):
         Q = pmat(model["outs"][0])
         G = impl["G"]
@@ -371,6 +377,11 @@ def compare(case, impl, model):
         qs = pvec(model["outs"][0])
         ds += _cmp_vec("basis normsq", impl["nsq"], qs, None, 1e-8)
         ds += _cmp_vec("grid normsq", impl["grid_nsq"], qs, None, 1e-9)
+        Q = pmat(model["outs"][1])
+        sc = max([abs(float(x)) for r in Q for x in r] + [1e-300])
+        for i, (gr, qr) in enumerate(zip(impl["G"], Q)):
+            # Basis.inner_product zeroes basis-Gram entries below 1e-12: absolute slack
+            ds += _cmp_vec(f"coefficient Gram[{i}]", gr, qr, sc + 1.0, 1e-8)
     return ds
 
 
